@@ -2,7 +2,7 @@
    _get_symbolic_rhs 765-829, _extract_past_terms 973-996, _resolve_derivatives 998-1038) for models with scalar
    state variables (vectorize=False), and the specification "J is the derivative of the vector field".
    Definitions only; proofs are in JacobianProofs.v (algebra, any commutative ring).  The real-analysis instance (K := R, Coquelicot
-   is_derive for exp/sin/cos/tanh/sigmoid) is a stretch goal that is NOT built: the function rules `dfn` are taken as the dual extension.
+   is_derive for exp/sin/cos/tanh/sigmoid) is JacobianReal.v.
 
    What the code does (Impl, `jac_sym` / `jac_impl`):
      1. f_i := right-hand side of the i-th differential equation with every algebraic intermediate (non-DE variable,
@@ -343,7 +343,7 @@ Definition Qc_abs (v : Qc) : Qc := if Qle_bool 0%Q (this v) then v else (- v)%Qc
    correspondence stream the harness replaces the functions `sigmoid, exp, sin, cos, tanh` of the generated modules (run
    function and Jacobian function alike) by the polynomial stand-ins below, so that what is compared exactly is the structure
    the code emits (which rule is applied to which call, chain rule, placement); that the rules are the derivatives of the
-   real functions is not proved in this development (stretch goal; supported only by the non-deciding finite-difference stream).  The stand-ins of sin/tanh are odd and the one of cos is even (sympy rewrites
+   real functions is JacobianReal.v (fn_derive, D_correct).  The stand-ins of sin/tanh are odd and the one of cos is even (sympy rewrites
    sin(-u) -> -sin(u), cos(-u) -> cos(u) when it builds the expression); exp is not used in that stream (sympy merges
    exp(u)*exp(v) into exp(u+v), which no polynomial satisfies). *)
 Definition Qc_fn (f : fn) (v : Qc) : Qc :=
